@@ -12,7 +12,7 @@
 (* the specification's step" and "the logged state satisfies the            *)
 (* property's predicate".  Empty set = the event conforms.                 *)
 (***************************************************************************)
-EXTENDS Env, Rebuild
+EXTENDS Env, Rebuild, GeneratorShape
 
 Tag(c, x) == <<c, ToString(x)>>
 C(c) == <<c, "">>
@@ -467,6 +467,21 @@ EqClauses(T, prev, ev, post) ==
 EqTripleClauses(T, prev, ev, post) ==
        If(ev.eq_ab /\ ev.eq_bc /\ ~ev.eq_ac, {Tag("C15:not-transitive", ev.kind)})
 
+(* --- C19: instance generators --------------------------------------------------- *)
+GenerateClauses(T, prev, ev, post) ==
+    IF ev.out # "ok" THEN {Tag("C19:generate-raised", ev.out)}
+    ELSE {Tag("C19:shape", w) : w \in WellShapedWhy(T.gen, ev.inst, ev.nj, ev.nm)}
+      \cup If(\E i \in DOMAIN prev.names[ev.g] : prev.names[ev.g][i] = ev.name, {C("C19:name-reused")})
+      \cup If(\E a, b \in DOMAIN post.outs : a < b /\ T.seeds[a] = T.seeds[b] /\ T.seeds[a] # 0
+                  /\ ~(IsPrefixOf(post.outs[a], post.outs[b]) \/ IsPrefixOf(post.outs[b], post.outs[a])),
+              {C("C19:same-seed-different-sequence")})
+IterClauses(T, prev, ev, post) ==
+       If(ev.out # "ok", {Tag("C19:iteration-raised", ev.out)})
+  \cup If(ev.out = "ok" /\ ((\E i \in DOMAIN ev.counts : ev.counts[i] # ev.limit) \/ ev.len # ev.limit),
+          {C("C19:iteration-count")})
+CoverageClauses(T, prev, ev, post) ==
+       If(Rng(ev.seen) # 1..ev.M, {Tag("C19:machines-not-drawn-from-all", <<ev.M, ev.k>>)})
+
 KindsOf(kinds, subs) == [i \in DOMAIN subs |-> IF subs[i] = 0 THEN "other" ELSE kinds[subs[i]]]
 
 CreateClauses(T, prev, ev, post) ==
@@ -493,7 +508,8 @@ CreateOrGetClauses(T, prev, ev, post) ==
 (* with it (the recorder omits a post-state identical to the previous one)    *)
 DClauses(T, l, prev, post) ==
     LET ev == T.events[l] IN
-    IF l = 1 THEN (IF ev.a = "Init" THEN InitClauses(T, ev, post) ELSE {C("M:first-event-not-init")})
+    IF l = 1 THEN (IF ev.a = "Init" THEN InitClauses(T, ev, post)
+                   ELSE IF ev.a = "GenInit" THEN {} ELSE {C("M:first-event-not-init")})
     ELSE CASE ev.a = "Dispatch"    -> DispatchClauses(T, prev, ev, post)
            [] ev.a = "Reset"       -> ResetClauses(T, prev, ev, post)
            [] ev.a = "Query"       -> QueryClauses(T, prev, ev, post)
@@ -516,6 +532,10 @@ DClauses(T, l, prev, post) ==
            [] ev.a = "SchedRoundTrip" -> SchedRoundTripClauses(T, prev, ev, post)
            [] ev.a = "Eq"          -> EqClauses(T, prev, ev, post)
            [] ev.a = "EqTriple"    -> EqTripleClauses(T, prev, ev, post)
+           [] ev.a = "NewGen"      -> {}
+           [] ev.a = "Generate"    -> GenerateClauses(T, prev, ev, post)
+           [] ev.a = "Iter"        -> IterClauses(T, prev, ev, post)
+           [] ev.a = "Coverage"    -> CoverageClauses(T, prev, ev, post)
            [] ev.a = "Graph"       -> GraphClauses(T, prev, ev, post)
            [] ev.a = "Solved"      -> SolvedClauses(T, prev, ev, post)
            [] ev.a = "CreateObs"   -> CreateObsClauses(T, prev, ev, post)
